@@ -172,6 +172,44 @@ def run(ctx):
                                                                              exact=qstr(ex)),
                                           {"what": "functional-subdomain", "cls": kind})
                 ctx.count("subset-sequences-on-one-mesh")
+            # copies made by the library AFTER the mesh has been integrated on (its mapping and tables are cached
+            # on the mesh object): translated / scaled / mirrored / tagged copies integrate over THEIR geometry
+            if rng.random() < 0.5:
+                dimm = m.p.shape[0]
+                how = rng.choice(["translated", "scaled", "mirrored", "with_subdomains+translated"])
+                if how == "translated":
+                    m2 = m.translated(tuple(rng.randint(-8, 8) / 4 for _ in range(dimm)))
+                elif how == "scaled":
+                    m2 = m.scaled(tuple(rng.choice([0.5, 2.0, 1.5, 0.25]) for _ in range(dimm)))
+                elif how == "mirrored":
+                    nrm = [0.0] * dimm
+                    nrm[rng.randrange(dimm)] = 1.0
+                    m2 = m.mirrored(tuple(nrm), tuple(rng.randint(-4, 4) / 4 for _ in range(dimm)))
+                else:
+                    m2 = m.with_subdomains({"s": np.array([0], dtype=np.int32)}).translated(
+                        tuple(rng.randint(1, 8) / 4 for _ in range(dimm)))
+                val2 = Functional(lambda w: f(w.x)).assemble(Basis(m2, m2.elem(), intorder=order))
+                ex2 = exact.mesh_integral(m2, p)
+                ctx.count("library-copy-after-integration:" + how)
+                if abs(val2 - float(ex2)) > 1e-11 * max(1.0, abs(float(ex2))):
+                    ctx.violation("functional on a copy of the mesh made by " + how + " (after integrating on the "
+                                  "original) differs from the exact integral over the copy",
+                                  dict(descr, copy=how, copy_mesh=meshes.mesh_descr(m2), got=float(val2), exact=qstr(ex2)),
+                                  {"what": "functional-copy", "cls": kind, "how": how.split("+")[-1]})
+            # a user supplied quadrature rule whose points are INTEGERS (vertex rule): same result as with floats
+            if kind in ("quad", "hex", "tri", "tet", "line") and rng.random() < 0.3:
+                Xv = np.array(m.elem.refdom.p if hasattr(m.elem, "refdom") else e.refdom.p)
+                Xi = np.rint(Xv).astype(rng.choice([np.int32, np.int64]))
+                if np.array_equal(Xi, Xv):
+                    Wv = np.full(Xi.shape[1], 1.0 / Xi.shape[1])
+                    vi = Functional(lambda w: f(w.x)).assemble(Basis(m, e, quadrature=(Xi, Wv)))
+                    vf = Functional(lambda w: f(w.x)).assemble(Basis(m, e, quadrature=(Xv.astype(np.float64), Wv)))
+                    ctx.count("integer-typed-quadrature-points")
+                    if abs(vi - vf) > 1e-12 * max(1.0, abs(vf)):
+                        ctx.violation("a quadrature rule given with integer-typed points gives another result than "
+                                      "the same rule with floating-point points",
+                                      dict(descr, points=Xi.tolist(), int_points=float(vi), float_points=float(vf)),
+                                      {"what": "integer-quadrature-points", "cls": kind})
             # dx bookkeeping vs the model (|det| * W) on affine cells
             if not general and kind != "wedge" and len(dxreqs) < 40:
                 dets = [qstr(abs(exact.det_poly(*exact.ref_map(kind, exact.cell_vertices(m, kk))).constant()))
